@@ -142,6 +142,12 @@ def scenarios():
     out['reorg-vanish-depth2'] = dict(script=lambda: [
         ev_state('fork2:conflict', blocks=forked(2, [('t6',), (), ('t7',)]), names=()),
         T, T, T, T])
+    # two orphaned blocks touching DIFFERENT scripts (t6: A only; t7: C and D), txs vanish
+    out['reorg-depth2-distinct-scripts'] = dict(mempool0=('t6', 't7'), script=lambda: [
+        ev_state('block(t6)', blocks=extended([('t6',)]), names=('t7',)), T,
+        ev_state('block(t7)', blocks=extended([('t6',), ('t7',)]), names=()), T, T, T,
+        ev_state('fork2:txs-vanish', blocks=forked(2, [(), (), ()], over=extended([('t6',), ('t7',)])),
+                 names=()), T, T, T, T])
     # S4: forced reorgs
     out['forced-unchanged'] = dict(warm=[('c2', 'blockchain.scripthash.get_history', [sh('B')])],
                                    script=lambda: [
@@ -310,3 +316,114 @@ def bind_c20(run, res):
         res.count('c20_traces_rejected')
         res.note_c20 = True
     return ok
+
+
+# ---- C10: answers at quiescence ----------------------------------------------------------------
+
+def judge_c10(run, res, clients=('c2', 'fresh')):
+    s = run.s
+    u = mpuniverse.universe()
+    dead = s.check_tasks()
+    if dead:
+        return [('server-task-ended', dict(tasks=dead))]
+    blocks, names = s.x_blocks, s.x_names
+    tip = len(blocks) - 1
+    if s.db.state.height != tip or bytes(s.db.state.tip) != blocks[-1].hash:
+        return [('not-quiescent:index-not-at-daemon-tip', dict(db=s.db.state.height, daemon=tip))]
+    ref = RefIndex(blocks, ACT)
+    per, info = mpuniverse.mempool_reference(u, names, blocks)
+    mem_ids = {u.txs[n].txid for n in names}
+    mem_spent = {(i[0], i[1]) for n in names for i in u.txs[n].inputs}
+    failures = []
+    if 'fresh' in clients and 'fresh' not in s.x_clients:
+        c = s.connect(name='fresh')
+        c.call('server.version', ['fresh', '1.4.2'])
+        s.x_clients['fresh'] = c
+    for cname in clients:
+        c = s.x_clients[cname]
+        for key in (WATCH if cname != 'fresh' else WATCH[:2]):
+            script = SCRIPTS[key]
+            want_conf = [(t[::-1].hex(), h) for t, h in ref.history(script)]
+            want_mem = {(t[::-1].hex(), -1 if unconf else 0, fee)
+                        for t, fee, unconf in per[script]['summaries']}
+            r = c.call('blockchain.scripthash.get_history', [sh(key)])
+            res.count('queries_judged')
+            got = r.get('result')
+            ok = isinstance(got, list)
+            if ok:
+                # unconfirmed entries carry a fee; a confirmed tx of the genesis block has height 0
+                conf = [(e['tx_hash'], e['height']) for e in got if 'fee' not in e]
+                mem = {(e['tx_hash'], e['height'], e['fee']) for e in got if 'fee' in e}
+                ok = conf == want_conf and mem == want_mem and len(got) == len(conf) + len(mem)
+            if not ok:
+                failures.append(('stale-get_history', dict(client=cname, script=key,
+                                                           got=str(got)[:300], want_confirmed=want_conf[-3:],
+                                                           want_mempool=sorted(want_mem))))
+            r = c.call('blockchain.scripthash.get_mempool', [sh(key)])
+            got = r.get('result')
+            res.count('queries_judged')
+            if not isinstance(got, list) or {(e['tx_hash'], e['height'], e['fee']) for e in got} != want_mem:
+                failures.append(('stale-get_mempool', dict(client=cname, script=key, got=str(got)[:300])))
+            r = c.call('blockchain.scripthash.get_balance', [sh(key)])
+            res.count('queries_judged')
+            want_bal = {'confirmed': ref.balance(script), 'unconfirmed': per[script]['delta']}
+            if r.get('result') != want_bal:
+                failures.append(('stale-get_balance', dict(client=cname, script=key,
+                                                           got=r.get('result'), want=want_bal)))
+            r = c.call('blockchain.scripthash.listunspent', [sh(key)])
+            res.count('queries_judged')
+            want_u = {(t[::-1].hex(), i, h, v) for t, i, v, h in ref.utxos_of(script)
+                      if (t, i) not in mem_spent}
+            want_u |= {(t[::-1].hex(), pos, 0, v) for t, pos, v in per[script]['utxos']
+                       if (t, pos) not in mem_spent}
+            got = r.get('result')
+            if not isinstance(got, list) or \
+                    {(e['tx_hash'], e['tx_pos'], e['height'], e['value']) for e in got} != want_u \
+                    or len(got) != len(want_u):
+                failures.append(('stale-listunspent', dict(client=cname, script=key, got=str(got)[:300],
+                                                           want=sorted(want_u)[:6])))
+        for h in range(max(0, tip - (3 if cname != 'fresh' else 0)), tip + 1):
+            ids = [t.txid[::-1].hex() for t in blocks[h].txs]
+            for pos in range(len(ids) + 1):
+                r = c.call('blockchain.transaction.id_from_pos', [h, pos, False])
+                res.count('queries_judged')
+                if pos < len(ids):
+                    if r.get('result') != ids[pos]:
+                        failures.append(('stale-id_from_pos', dict(client=cname, height=h, pos=pos,
+                                                                   got=r.get('result') or r.get('error'))))
+                elif 'error' not in r:
+                    failures.append(('id_from_pos-beyond-block-answered', dict(client=cname, height=h)))
+        r = c.call('blockchain.transaction.id_from_pos', [tip + 1, 0, False])
+        if 'error' not in r:
+            failures.append(('id_from_pos-beyond-tip-answered', dict(client=cname)))
+    return failures
+
+
+def c10_scenarios():
+    '''The C07 scenarios with cache-populating queries before, during and after the events.'''
+    out = {}
+    warm = []
+    for k in WATCH:
+        warm.append(('c2', 'blockchain.scripthash.get_history', [sh(k)]))
+    for pos in (0, 1):
+        warm.append(('c2', 'blockchain.transaction.id_from_pos', [7, pos, False]))
+        warm.append(('c2', 'blockchain.transaction.id_from_pos', [6, pos, False]))
+    for name, scn in scenarios().items():
+        scn = dict(scn)
+        scn['warm'] = list(scn.get('warm', ())) + warm
+        inner = scn['script']
+
+        def script(inner=inner):
+            evs = inner()
+            during = [ev_request('c2', 'blockchain.scripthash.get_history', [sh('A')], tag='during'),
+                      ev_request('c2', 'blockchain.scripthash.get_history', [sh('B')], tag='during'),
+                      ev_request('c2', 'blockchain.transaction.id_from_pos', [7, 0, False], tag='during'),
+                      ev_request('c2', 'blockchain.transaction.id_from_pos', [8, 1, False], tag='during')]
+            # after the first environment event and its first tick; and again before the last ticks
+            k = next((i for i, e in enumerate(evs) if e == T), len(evs))
+            evs = evs[:k + 1] + during[:3] + evs[k + 1:]
+            evs = evs[:-2] + [during[3], during[0]] + evs[-2:]
+            return evs
+        scn['script'] = script
+        out[name] = scn
+    return out
